@@ -31,4 +31,4 @@ Proof. intros H. apply parse_sound_complete in H. exact (exception_only_after_wi
 
 (* axioms the property theorems of this file depend on (one traversal for all of them) *)
 Definition C12_theorems := (@C12_lists_are_the_json_partition, @C12_files_regenerate, @C12_disjoint_fold_unique, @C12_ids_parse, @C12_exception_only_after_with).
-Print Assumptions C12_theorems.
+Redirect "assumptions/C12" Print Assumptions C12_theorems.
